@@ -12,11 +12,12 @@ PROP = "C20"
 LEVEL = "other"
 THEOREMS = {"Properties.C20": ["C20_symbol_text_roundtrip", "C20_box_certificate", "C20_text_constants_from_source", "C20_grammar_text_roundtrip", "C20_box_code_path",
                                 "C20_split_unique", "C20_pda_label_roundtrip", "C20_fst_label_roundtrip", "C20_label_separators_from_source",
-                                "C20_join_split", "C20_read_pda_label_sound", "C20_read_fst_label_sound"]}
+                                "C20_join_split", "C20_read_pda_label_sound", "C20_read_fst_label_sound",
+                                "C20_pda_label_roundtrip_fields", "C20_fst_label_roundtrip_fields"]}
 LEVEL_TEXT = ("Partial + correspondence: the VAR:/TER: marker logic of to_text/from_text is modelled at token level and its round trip is proved for every "
               "symbol that is not an epsilon spelling; the edge labels of the PDA / FST networkx export are modelled at character level (assembly with the separators "
               "regenerated from the source, str.split with exact-two-parts unpacking) and proved to be read back whenever each separator occurs at exactly one position "
-              "(C20_pda_label_roundtrip, C20_fst_label_roundtrip), the model being compared with pyformlang's labels, refusals and read-back transitions on separator-free "
+              "(C20_pda_label_roundtrip, C20_fst_label_roundtrip; reduced to conditions on the fields alone in C20_*_roundtrip_fields; reading is sound: C20_read_*_label_sound, C20_join_split), the model being compared with pyformlang's labels, refusals and read-back transitions on separator-free "
               "and separator-bearing values; json.dumps/loads and networkx containers are external and not modelled. All round trips "
               "(automaton, PDA, FST through networkx; grammar through text) are checked for exact structural equality on generated objects, grammars also "
               "for bounded language agreement with the exact membership oracle; each RSA box is certified language-equal (proved equivalence check) to the "
@@ -235,10 +236,11 @@ def check_cases(ctx, cases):
             v = verdicts.get((i, "label"))
             clean = not any(has_sep(x) for x in ([c["t"][0], c["t"][1]] + list(c["t"][2]) if c["op"] == "pda_label" else [c["t"][0]] + list(c["t"][1])))
             ctx.dist["label_values_without_separator" if clean else "label_values_with_separator"] += 1
-            if len(o["labels"]) != 1 or v is None or not isinstance(v, tuple) or len(v) != 3:
+            if len(o["labels"]) != 1 or v is None or not isinstance(v, tuple) or len(v) != 4:
                 ctx.fail(c["op"] + "-label-shape", c, {"impl": o, "model": str(v)}, correspondence_only=True)
                 continue
-            same_label, guard, code = v
+            same_label, guard, code, fields_ok = v
+            ctx.dist["label_fields_premise_%s" % ("holds" if fields_ok else "fails")] += 1
             ctx.dist["label_guard_%s" % ("holds" if guard else "fails")] += 1
             ctx.dist["label_model_reads_%s" % {0: "refusal", 1: "fields", 2: "other_cut"}.get(code, code)] += 1
             roundtrip = o["got"] == o["orig"]
@@ -249,6 +251,10 @@ def check_cases(ctx, cases):
                 ctx.fail(c["op"] + "-label-model", c, {"label": o["labels"][0], "fields": o["fields"]}, correspondence_only=True)
             elif guard and code != 1:
                 raise RuntimeError("model contradicts C20_pda_label_roundtrip / C20_fst_label_roundtrip on %r" % (c,))
+            elif fields_ok and not guard:
+                raise RuntimeError("model contradicts C20_pda_label_roundtrip_fields / C20_fst_label_roundtrip_fields on %r" % (c,))
+            elif clean and not fields_ok:
+                ctx.fail(c["op"] + "-fields-premise", c, {"fields": o["fields"], "note": "separator-free values whose json texts do not meet the premises of the field-level round-trip theorem"}, correspondence_only=True)
             elif clean and not guard:
                 ctx.fail(c["op"] + "-guard", c, {"label": o["labels"][0], "note": "separator-free values whose label does not meet the premise of the round-trip theorem"}, correspondence_only=True)
             elif (code == 0) != (o["got"] == "ValueError") and not (code == 2 and o["got"] == "ValueError"):
